@@ -86,8 +86,9 @@ def replay(model, obligation):
             prof.speculative_execution_policy = types.SimpleNamespace(new_plan=lambda ks, st: plan)
             s.cluster = types.SimpleNamespace(_config_mode=cl._ConfigMode.LEGACY if legacy else cl._ConfigMode.PROFILES, default_retry_policy='DRP',
                                               load_balancing_policy='DLBP', allow_beta_protocol_version=False, timestamp_generator=lambda: 99)
-            s.default_timeout, s.default_consistency_level, s.default_serial_consistency_level = 22.0, 6, None
-            s.row_factory, s._protocol_version, s.use_client_timestamp, s.default_fetch_size = 'DRF', pv, True, 5000
+            # the public names are properties that refuse to be set in profile mode: the state behind them is set directly
+            s._default_timeout, s._default_consistency_level, s._default_serial_consistency_level = 22.0, 6, None
+            s._row_factory, s._protocol_version, s.use_client_timestamp, s.default_fetch_size = 'DRF', pv, True, 5000
             s.encoder, s._metrics, s.keyspace = None, None, 'ks'
             q = SimpleStatement('SELECT 1', consistency_level=s_cl, serial_consistency_level=s_scl, fetch_size=s_fetch, is_idempotent=idem)
             s._create_response_future(q, None, False, None, cl._NOT_SET, execution_profile=cl.EXEC_PROFILE_DEFAULT if legacy else prof)
